@@ -177,6 +177,11 @@ pub struct Script {
     /// a short write may then end in the middle of any of the buffers
     #[serde(default)]
     pub vectored: bool,
+    /// with `lazy_events`: the application holds its events handle but does not poll it until all
+    /// requests have been awaited and `is_connection_closed` has been read (an application that only
+    /// looks at events now and then must not make requests hang)
+    #[serde(default)]
+    pub events_polled_last: bool,
 }
 
 impl Script {
@@ -186,7 +191,7 @@ impl Script {
     }
 
     pub fn new(steps: Vec<Step>) -> Script {
-        Script { sched_seed: 1, seg: SegPattern::Whole, replies: Vec::new(), steps, max_write: None, picture: None, broken_pipe: true, greeting: None, lazy_events: false, version: None, vectored: false }
+        Script { sched_seed: 1, seg: SegPattern::Whole, replies: Vec::new(), steps, max_write: None, picture: None, broken_pipe: true, greeting: None, lazy_events: false, version: None, vectored: false, events_polled_last: false }
     }
 }
 
@@ -1346,7 +1351,9 @@ async fn drive(script: &Script, connect: Connect) -> Observation {
     }
 
     // epilogue: let everything drain, then require every request to resolve in virtual time
-    gate.notify_one();
+    if !script.events_polled_last {
+        gate.notify_one();
+    }
     h.lock().unwrap().resume_writes();
     h.lock().unwrap().release_all();
     settle(&h, &done).await;
@@ -1386,6 +1393,10 @@ async fn drive(script: &Script, connect: Connect) -> Observation {
     settle(&h, &done).await;
     obs.is_closed = callers.values().next().or(root.as_ref()).map(Client::is_connection_closed);
     obs.server_idle_at_end = h.lock().unwrap().server.idle_waiting;
+    if script.events_polled_last {
+        gate.notify_one();
+        settle(&h, &done).await;
+    }
     // finally let go of every handle: the loop must end and release the transport
     callers.clear();
     drop(root);
